@@ -158,3 +158,52 @@ Example end_to_end_quoted_example : forall nq,
   end.
 Proof. intros [|]; vm_compute; repeat split; reflexivity. Qed.
 Print Assumptions end_to_end_quoted_example.
+
+(* ... AND QUOTED OBJECT MAPS (one level, over the same rows): the same end-to-end statement for documents whose triples maps have plain
+   subject maps and predicate-object maps holding either ordinary object maps or object maps that quote a plain triples map of the
+   document: such an object map yields s p << t >> [g] for every triple t the quoted map generates for that row and places in a graph *)
+From Morph Require Import Proofs.DocQuotedObjP.
+Theorem document_rules_with_quoted_objects_are_rule_table_rules : forall scfg fe tables d0 rules,
+  qobj_doc d0 = true -> normalise d0 = Ok rules -> nodupb (map r_id rules) = true ->
+  forall x, In x (spec_lines scfg fe d0 tables) <->
+    (exists rl sr, In rl rules /\ r_asserted rl = true /\ r_ok rl <> KQuoted /\ In sr (tables (r_src rl)) /\ doc_rule_line scfg rl sr = Some x) \/
+    (exists rl b sr, In rl rules /\ r_asserted rl = true /\ r_ok rl = KQuoted /\ find_rule rules (r_ov rl) = Some b /\
+                     In sr (tables (r_src rl)) /\ doc_qobj_line scfg rl b sr = Some x).
+Proof. exact doc_spec_is_rule_spec_qobj. Qed.
+Print Assumptions document_rules_with_quoted_objects_are_rule_table_rules.
+Theorem engine_document_with_quoted_objects_is_generation_rules_document : forall cfg fe scfg raw,
+  cfg_agree cfg scfg -> c_nquads cfg = s_nquads scfg -> s_na scfg = c_na cfg ->
+  forall d0 rules l,
+    qobj_doc d0 = true -> normalise d0 = Ok rules -> nodupb (map r_id rules) = true ->
+    (forall rl, In rl rules -> simple_rule rl \/ qobj_rule_ok rules rl) ->
+    (forall rl rw n, In rl rules -> In rw (raw (r_src rl)) -> In n (rule_ref_set fe rules rl) -> assoc n rw <> None) ->
+    materialize_rules cfg fe rules (delivered cfg raw) = Ok l ->
+    forall x, In x l <-> In x (spec_lines scfg fe d0 (spec_tables raw)).
+Proof. exact engine_document_is_spec_document_qobj. Qed.
+Print Assumptions engine_document_with_quoted_objects_is_generation_rules_document.
+Theorem quoted_object_fragment_is_decidable : forall d0, theorem_applies_qobj d0 = true ->
+  qobj_doc d0 = true /\ exists rules, normalise d0 = Ok rules /\ nodupb (map r_id rules) = true /\ forall rl, In rl rules -> simple_rule rl \/ qobj_rule_ok rules rl.
+Proof. exact theorem_applies_qobj_ok. Qed.
+Print Assumptions quoted_object_fragment_is_decidable.
+
+Definition dqo : document :=
+  [{| t_id := u "#Inner"; t_src := u "S"; t_nonasserted := true; t_subj := tmq KTempl "http://e/{id}"; t_sjoins := [];
+      t_classes := []; t_sgraphs := [];
+      t_poms := [{| p_preds := [tmq KConst "http://e/name"]; p_objs := [{| o_tm := tmq KRef "name"; o_lang := None; o_dt := None; o_joins := [] |}]; p_graphs := [] |};
+                 {| p_preds := [tmq KConst "http://e/age"]; p_objs := [{| o_tm := tmq KRef "age"; o_lang := None; o_dt := None; o_joins := [] |}]; p_graphs := [] |}] |};
+   {| t_id := u "#Outer"; t_src := u "S"; t_nonasserted := false; t_subj := tmq KTempl "http://e/src/{src}"; t_sjoins := [];
+      t_classes := [u "http://e/Source"]; t_sgraphs := [tmq KConst "http://e/g"];
+      t_poms := [{| p_preds := [tmq KConst "http://e/says"]; p_objs := [{| o_tm := mk_tmap KQuoted (u "#Inner") CkIri None; o_lang := None; o_dt := None; o_joins := [] |}]; p_graphs := [] |}] |}].
+Example end_to_end_quoted_object_example : forall nq,
+  theorem_applies_qobj dqo = true /\
+  match normalise dqo with
+  | Ok rules => match materialize_rules (cfgq nq) feq rules (delivered (cfgq nq) rawq) with
+                | Ok l => forallb (fun x => mem x (spec_lines (scfgq nq) feq dqo (spec_tables rawq))) l = true
+                          /\ length l = length (spec_lines (scfgq nq) feq dqo (spec_tables rawq)) /\ length l = 5%nat
+                          /\ mem (u "<http://e/src/b> <http://e/says> << <http://e/2> <http://e/age> ""41"" >>" ++ (if nq then u " <http://e/g>" else [])) l = true
+                | Err _ => False
+                end
+  | Err _ => False
+  end.
+Proof. intros [|]; vm_compute; repeat split; reflexivity. Qed.
+Print Assumptions end_to_end_quoted_object_example.
